@@ -37,6 +37,46 @@ NOTES = {
  "C19-2": ("date_time.c ISO 8601 basic long format uses %G (ISO week-based year)", "instants on Dec 29-31 / Jan 1-3 where the ISO week year differs from the calendar year (0.47% of days)"),
  "C20-1": ("posix/thread.c aws_thread_launch: managed count incremented at the top, roll-back after the cpu-pinning retry", "managed thread with a cpu_id pthread_create refuses (retry path): one thread counted twice, join-all never reaches zero"),
  "C20-2": ("posix/thread.c aws_thread_launch: managed count incremented only after pthread_create returns", "managed parent launches a managed child while another thread is in join-all; child finishes and is joined before the parent's increment: join-all returns while the parent still runs"),
+ "C01-3": ("byte_buf.c aws_byte_buf_secure_zero wipes len instead of capacity", "buffer whose len was reset below bytes written earlier (append secret, reset(false), append less), then any secure wipe / clean_up_secure"),
+ "C01-4": ("byte_buf.c s_aws_byte_buf_append_dynamic: required capacity computed from len instead of capacity", "append_dynamic with len < capacity and from->len > 2*capacity - len: new block too small, heap overflow, len > capacity"),
+ "C02-3": ("hash_table.c aws_hash_table_remove (no out-param): key destructor gets the caller's lookup key", "table with a key destructor, remove() through an equal key that is a different object"),
+ "C02-4": ("hash_table.c s_safe_eq_check: only the first argument is NULL-checked", "NULL key stored, then a non-NULL key whose hash code equals the NULL key's fixed code (42) probes onto it: user equality function called with NULL"),
+ "C03-3": ("allocator_sba.c s_sba_alloc_from_bin: bin lock dropped around the page allocation, page_cursor overwritten without re-check", "two threads allocating from the same pageless size class inside that window: one page orphaned, bytes_active/bytes_reserved lose it"),
+ "C03-4": ("allocator_sba.c s_page_bind no longer zeroes alloc_count", "a new page landing on memory written before (large block written and released, then small allocations): page dropped while a block is live / never returned"),
+ "C04-3": ("uri.c aws_byte_buf_append_decoding_uri: reserve_relative became reserve", "destination already holding data: decoded text written past the capacity (len > capacity)"),
+ "C04-4": ("encoding_avx2.c decode(): 24-byte store widened to two 16-byte lane stores", "AVX2 decode of > 32 characters with len%32 in {4,8,12} into an exactly sized output: 1-7 bytes past the buffer"),
+ "C05-3": ("encoding.c aws_utf8_decoder_update: local state copy written back without `min`", "overlong sequence whose lead byte arrives in an earlier update call than its last continuation byte: accepted (chunking-dependent verdict)"),
+ "C05-4": ("encoding.c portable base64 decode: sentinel allowed in digits 3/4 of every quantum", "portable path, '=' at offset 2 or 3 of a non-final quantum (Zg==Zg==): accepted, garbage bytes"),
+ "C06-3": ("priority_queue.c s_swap: index rewrite of the handle landing in slot b nested under `if (*bp_a)`", "mixed queue: an element with a handle rises past one without: its handle keeps a stale index, remove() takes out another element"),
+ "C06-4": ("priority_queue.c aws_priority_queue_clear: invalidation loop stops at the first slot without a handle", "mixed queue with a handle-less element before a handled one, clear(), regrow: stale handle still 'in queue' and removes a new element"),
+ "C07-3": ("task_scheduler.c aws_task_run clears the scheduled flag AFTER the callback", "task re-schedules itself (future) from its own callback, is later cancelled: CANCELED but stays in the heap and runs again"),
+ "C07-4": ("priority_queue.c push_ref: sift-up before the handle's index is set", "timed task scheduled earlier than its heap parent (sifts up), not moved again, then cancelled: another task is cancelled instead"),
+ "C08-3": ("ref_count.c aws_ref_count_release re-reads the counter instead of using fetch_sub's result", "two owners releasing concurrently (A 2->1, B 1->0, both re-read 0): shutdown runs twice (use-after-free / second join never returns)"),
+ "C08-4": ("thread_scheduler.c s_thread_fn: run_all moved before the processing of collected cancellations", "timed task already handed over, cancel queued, and its time passes before the next queue collection: RUN although cancelled while pending"),
+ "C09-3": ("array_list.c aws_array_list_mem_swap: slice count (item_size-1)/SLICE", "aws_array_list_swap on element sizes 128 / 256"),
+ "C09-4": ("linked_list.inl aws_linked_list_swap_contents: b->tail.prev not updated", "swap_contents with a non-empty first list, then any tail-side operation on the second list"),
+ "C10-3": ("cbor.c consume_next_whole_data_item indefinite case: peek in front of the loop dropped (do/while)", "skipping an EMPTY indefinite array/map/string (9F FF ...): its break is eaten as a child, following siblings swallowed"),
+ "C10-4": ("libcbor streaming.c case 0x7A calls the byte_string callback", "text strings of 65536..2^32-1 bytes decode with type BYTES"),
+ "C11-3": ("cJSON.c cJSON_Duplicate: first child's prev (tail pointer) set from the exhausted source iterator", "duplicate a tree, then append to a non-empty container OF THE DUPLICATE: add reports success, value lost"),
+ "C11-4": ("cJSON.c ensure(): growth 2 x current length instead of 2 x needed", "a single string longer than the current print buffer (e.g. 600 bytes within the first 256 output bytes): heap overflow / output does not re-parse"),
+ "C12-3": ("xml_parser.c aws_xml_parse: preamble statement length measured before the cursor is advanced to the statement", "preamble statement preceded by more bytes than follow it before the root's '<' (newline before <!DOCTYPE>): first child dispatched as root"),
+ "C12-4": ("xml_parser.c s_advance_to_closing_tag: name_open buffer shrunk to MAX_NAME_LEN", "element with a name of exactly 256 bytes, skipped / read as body, containing a child with an end tag"),
+ "C13-3": ("uri.c builder size estimate: value.len + 1 only for non-empty values", "query parameter list with >= 2 empty-valued params and no spare bytes from the port: tail of the URI silently dropped"),
+ "C13-4": ("uri.c s_encode_cursor_to_buffer: reserve only when capacity < 3*len (ignores buffer->len)", "encoding into a non-empty buffer whose total capacity is >= 3*len but whose free room is not: write past capacity"),
+ "C14-3": ("log_channel.c foreground channel: mutex_lock became mutex_try_lock (result unused)", "two threads in the same foreground channel's send at once: writer entered concurrently, foreign unlock"),
+ "C14-4": ("logging.c no-alloc logger: early return on a short fwrite skips the unlock", "one failed write (ENOSPC/EPIPE) and then one more log call: blocks for ever"),
+ "C15-3": ("ring_buffer.c acquire wrapped branch: tail re-loaded and space recomputed after a failed fit", "wrapped ring, request larger than the tail gap and than end-head, and the releaser frees the upper and lower buffers between the two tail loads: grant outside storage"),
+ "C15-4": ("ring_buffer.c acquire empty branch: `>` became `>=`", "idle ring of N bytes refuses acquire(N)"),
+ "C16-3": ("clock.inl convert_u64 remainder rule: divisibility tested against floor(old/new)", "remainder requested, new < old, old not a multiple of new but a multiple of floor(old/new) (24 MHz -> 10 MHz)"),
+ "C16-4": ("math.fallback.inl aws_mul_u64_saturating: `>` became `>=`", "portable variant only, a == floor(MAX/b) exactly with b not a divisor of MAX"),
+ "C17-3": ("memtrace.c aws_mem_tracer_dump: mutex released before the collected records are listed", "another thread releases a block while the dump is listing: dump reads freed records (data race, no lock/atomic in the window)"),
+ "C17-4": ("memtrace.c s_trace_mem_release: wrapped release before untrack", "thread B is handed the recycled address between A's free and A's untrack: count one short, bytes stay counted"),
+ "C18-3": ("lru_cache.c put: evict-if-full moved before the insert", "full LRU cache, put of a key already present that is not the LRU entry: an entry that did not overflow is evicted"),
+ "C18-4": ("linked_hash_table.c move_node_to_end: early return compares with back() instead of end()", "lookup hitting exactly the second-most-recent entry is not promoted: wrong victim later"),
+ "C19-3": ("date_time.c new calendar validation calls the leap-year rule with tm_year (1900-biased)", "any text for 29 Feb of a year divisible by 400 is rejected"),
+ "C19-4": ("date_time.c numeric zero offsets no longer mark the time as UTC", "RFC 822 text with +0000 / -0000 in a process whose zone is not UTC: read as local time"),
+ "C20-3": ("thread_shared.c join_all: timeout check moved after the pending list is taken, `break` skips the join of that list", "join timeout configured, >= 2 managed threads, timeout firing after one parked itself: thread never joined, count never reaches zero"),
+ "C20-4": ("thread_shared.c decrement: notify only when the count becomes 1", "two threads inside join_all at once: the second waiter is never woken"),
  "C03-1": ("allocator_sba.c s_sba_free_to_bin: empty-page release only when the class has a working page (page_cursor)", "a page empties while its class has carved an exact multiple of its per-page capacity (no partially carved page): the empty page is retained, more than one page per class stays reserved"),
  "C03-2": ("allocator_sba.c s_sba_alloc_from_bin: room check `>=` became `>`", "32-byte class only (usable page space is an exact multiple of the chunk): at the 127th live block the page is neither retired nor reused; bytes_active/bytes_reserved under-report"),
  "C04-1": ("libcbor streaming.c claim_bytes: bounds test rewritten additively (wraps)", "definite-length byte/text string whose 8-byte length is >= 2^64-9 (5B FF..FF): accepted, view of ~2^64 bytes outside the input"),
